@@ -29,15 +29,26 @@ pub assume_specification<'a>[ str::trim ](s: &'a str) -> (r: &'a str)
         trim_lead(s@) + blen(r@) <= blen(s@),
 ;
 
+// Neighbouring std functions get their *own* uninterpreted meaning, so that code which calls one
+// of them where the property needs `trim` does not verify by accident.
+pub uninterp spec fn trim_start_spec(s: Seq<char>) -> Seq<char>;
+pub uninterp spec fn trim_end_spec(s: Seq<char>) -> Seq<char>;
+pub assume_specification<'a>[ str::trim_start ](s: &'a str) -> (r: &'a str)
+    ensures r@ == trim_start_spec(s@), str_offset_in(r, s) == trim_lead(s@), trim_lead(s@) + blen(r@) <= blen(s@);
+pub assume_specification<'a>[ str::trim_end ](s: &'a str) -> (r: &'a str)
+    ensures r@ == trim_end_spec(s@), str_offset_in(r, s) == 0, blen(r@) <= blen(s@);
+
 #[verifier::external_body]
 pub fn verif_str_len(s: &str) -> (r: usize)
-    ensures r == blen(s@)
+    ensures r == blen(s@), r <= isize::MAX // a str is at most isize::MAX bytes (std doc of slices)
 { s.len() }
 
 /// E9: `a.as_ptr() as usize - b.as_ptr() as usize`
 #[verifier::external_body]
 pub fn verif_offset_in(a: &str, b: &str) -> (r: usize)
-    ensures r == str_offset_in(a, b)
+    ensures
+        r == str_offset_in(a, b),
+        r + blen(a@) <= isize::MAX, // `a` lies inside `b`, and `b` is at most isize::MAX bytes
 { a.as_ptr() as usize - b.as_ptr() as usize }
 
 /// E3: `X.lines().enumerate()` as a vector of (index, line)
@@ -45,6 +56,7 @@ pub fn verif_offset_in(a: &str, b: &str) -> (r: usize)
 pub fn verif_lines_enumerate<'a>(s: &'a str) -> (r: Vec<(usize, &'a str)>)
     ensures
         r@.len() == lines_of(s@).len(),
+        r@.len() <= isize::MAX, // fewer lines than bytes
         forall|i: int| 0 <= i < r@.len() ==> (#[trigger] r@[i]).0 == i && r@[i].1@ == lines_of(s@)[i],
 { s.lines().enumerate().collect() }
 
@@ -104,3 +116,12 @@ pub fn verif_parse_usize(s: &str) -> (r: Result<usize, core::num::ParseIntError>
         (r matches Ok(n) ==> parse_usize_spec(s@) == Some(n)),
         (r is Err ==> parse_usize_spec(s@) is None),
 { s.parse::<usize>() }
+
+// ---- &str as a hash key (T-std) -----------------------------------------------------------------
+// `str`'s Hash/Eq implementations are functions of the contents, so &str obeys the key model and
+// two &str values with equal contents are the same key.
+pub broadcast axiom fn axiom_str_key_model()
+    ensures #[trigger] vstd::std_specs::hash::obeys_key_model::<&str>();
+
+pub broadcast axiom fn axiom_str_view_injective(a: &str, b: &str)
+    ensures (#[trigger] a@ == #[trigger] b@) ==> a == b;
